@@ -260,7 +260,8 @@ async fn run_writer(ep: &mut dyn Endpoint, ops: &[WOp], shutdown: bool, salt: u6
     }
 }
 
-async fn run_reader(ep: &mut dyn Endpoint, caps: &[usize], prefill: usize, side: &std::cell::RefCell<Side>, idle: Option<std::time::Duration>) {
+/// `limit`: more than was ever going to be written - a reader that gets this far is being fed invented bytes; stop (the oracle reports it).
+async fn run_reader(ep: &mut dyn Endpoint, caps: &[usize], prefill: usize, side: &std::cell::RefCell<Side>, idle: Option<std::time::Duration>, limit: usize) {
     let mut i = 0usize;
     let mut zero_streak = 0;
     loop {
@@ -303,6 +304,9 @@ async fn run_reader(ep: &mut dyn Endpoint, caps: &[usize], prefill: usize, side:
                     return;
                 }
                 s.received.extend_from_slice(&v);
+                if s.received.len() > limit {
+                    return;
+                }
             }
             Err(e) => {
                 let msg = e.to_string();
@@ -491,6 +495,17 @@ impl Scenario for IoSim {
                 _ => case.mode_back.cap / 2,
             };
             let reverse_bytes = case.reverse_bytes.min(back_room);
+            let fwd_limit: usize = case
+                .writes
+                .iter()
+                .map(|w| match w {
+                    WOp::Write(n) => *n,
+                    WOp::WriteVectored(v) => v.iter().sum(),
+                    _ => 0,
+                })
+                .sum::<usize>()
+                + case.prefix_len
+                + 65536;
             let reverse: Vec<WOp> = if reverse_bytes > 0 { vec![WOp::Write(reverse_bytes)] } else { vec![] };
             // forward: a writes, b reads. backward: b writes, a reads. Each endpoint is used by two
             // logical actors, so run "write then read" on each side concurrently with the other side.
@@ -498,7 +513,7 @@ impl Scenario for IoSim {
             let side_a = async {
                 run_writer(wa.as_mut(), &case.writes, case.shutdown, 1, &fwd).await;
                 if reverse_bytes > 0 && fwd.borrow().write_err.is_none() {
-                    run_reader(wa.as_mut(), &case.read_caps, 0, &back, None).await;
+                    run_reader(wa.as_mut(), &case.read_caps, 0, &back, None, reverse_bytes + 65536).await;
                 }
             };
             let side_b = async {
@@ -507,10 +522,10 @@ impl Scenario for IoSim {
                 }
                 if back.borrow().write_err.is_none() {
                     if case.shutdown {
-                        run_reader(rb.as_mut(), &case.read_caps, case.prefill, &fwd, None).await;
+                        run_reader(rb.as_mut(), &case.read_caps, case.prefill, &fwd, None, fwd_limit).await;
                     } else {
                         // no end-of-stream will come: read until nothing arrives for a virtual minute
-                        run_reader(rb.as_mut(), &case.read_caps, case.prefill, &fwd, Some(std::time::Duration::from_secs(60))).await;
+                        run_reader(rb.as_mut(), &case.read_caps, case.prefill, &fwd, Some(std::time::Duration::from_secs(60)), fwd_limit).await;
                     }
                 }
             };
